@@ -48,10 +48,14 @@ def _split_tuple_assigns(fn):
             for s in b:
                 if isinstance(s, ast.Assign) and len(s.targets) == 1 and isinstance(s.targets[0], ast.Tuple) and isinstance(s.value, ast.Tuple) \
                         and len(s.targets[0].elts) == len(s.value.elts) \
-                        and all(isinstance(t, (ast.Name, ast.Attribute)) for t in s.targets[0].elts) \
-                        and all(isinstance(v, (ast.Name, ast.Attribute, ast.Constant)) for v in s.value.elts):
+                        and all(isinstance(t, (ast.Name, ast.Attribute)) for t in s.targets[0].elts):
                     tn = {A.norm(t) for t in s.targets[0].elts}
-                    if not any(A.norm(x) in tn for v in s.value.elts for x in ast.walk(v) if isinstance(x, (ast.Name, ast.Attribute))):
+                    simple = all(isinstance(v, (ast.Name, ast.Attribute, ast.Constant)) for v in s.value.elts)
+                    # a value that is computed (a call, ...) must not be able to see a target at all: it does not mention the
+                    # object a target is a field of, nor a target name
+                    roots = {A.root_name(t) for t in s.targets[0].elts}
+                    blind = simple or not any(isinstance(x, ast.Name) and x.id in roots for v in s.value.elts for x in ast.walk(v))
+                    if blind and not any(A.norm(x) in tn for v in s.value.elts for x in ast.walk(v) if isinstance(x, (ast.Name, ast.Attribute))):
                         for t, v in zip(s.targets[0].elts, s.value.elts):
                             out.append(ast.copy_location(ast.Assign(targets=[t], value=v), s))
                         continue
@@ -1174,23 +1178,10 @@ def _default_or(fa, e, at, param, default):
     return False
 
 
-def check(ck):
-    from .memo import check_new_memo_tables
-    ck.run(check_new_memo_tables, ck, "C16.M1", ('reference', 'base', 'runner_local', 'call_stack', 'context'))
-    R1, R2, R3, R4, R5 = ("C16.R%d" % i for i in range(1, 6))
-    ck.rule(R1, "the hash input contains the context args under the reserved key iff non-empty; the body is called "
-                "with the effective kwargs without them", 4)
-    ck.rule(R2, "inherit iff unset; replace, never merge: the caller's context args are copied only when the call has "
-                "none; references are rebuilt with the updated context; no dict merge of context args", 4)
-    ck.rule(R3, "the stack frame is built from the updated context's recursive part; with_context_args / "
-                "with_prevent_further_calls clone with the updated context", 4)
-    ck.rule(R4, "the prevent_further_calls raise dominates the dispatch to the runner", 1)
-    ck.rule(R5, "sibling agreement: every keyed reference construction in base.py passes self.context.recursive.context_args", 6)
-
-    # ---- R1: decided on the constructor with its private helpers flattened in
-    fl = FlatInit(ck)
+def reserved_key_clause(fl):
+    """C16.R1 / C04.R3: the context args are put on the hash input under the reserved key, before the hash is taken,
+    exactly when they are non-empty.  Returns (ok, where, stores, shapes, n_sites)."""
     init = fl.fa
-    HK_Q = FRA + "._compute_effective_kwargs_with_context_args"
     hks, ek = fl.hks, fl.ek
     # where the reserved key is put on a mapping: subscript stores, and entries of the expression that creates the
     # hash input (`{**effective, KEY: context_args}`, `dict(effective, KEY=context_args)`, ...), one per case
@@ -1247,6 +1238,28 @@ def check(ck):
             cs |= relative(case_conds(init, d), base)
         # exactly when non-empty
         ok = ok and holds_iff_nonempty(cs, ca_txt)
+    return bool(ok), where_r, stores, shapes, n_sites
+
+
+def check(ck):
+    from .memo import check_new_memo_tables
+    ck.run(check_new_memo_tables, ck, "C16.M1", ('reference', 'base', 'runner_local', 'call_stack', 'context'))
+    R1, R2, R3, R4, R5 = ("C16.R%d" % i for i in range(1, 6))
+    ck.rule(R1, "the hash input contains the context args under the reserved key iff non-empty; the body is called "
+                "with the effective kwargs without them", 4)
+    ck.rule(R2, "inherit iff unset; replace, never merge: the caller's context args are copied only when the call has "
+                "none; references are rebuilt with the updated context; no dict merge of context args", 4)
+    ck.rule(R3, "the stack frame is built from the updated context's recursive part; with_context_args / "
+                "with_prevent_further_calls clone with the updated context", 4)
+    ck.rule(R4, "the prevent_further_calls raise dominates the dispatch to the runner", 1)
+    ck.rule(R5, "sibling agreement: every keyed reference construction in base.py passes self.context.recursive.context_args", 6)
+
+    # ---- R1: decided on the constructor with its private helpers flattened in
+    fl = FlatInit(ck)
+    init = fl.fa
+    HK_Q = FRA + "._compute_effective_kwargs_with_context_args"
+    hks, ek = fl.hks, fl.ek
+    ok, where_r, stores, shapes, n_sites = reserved_key_clause(fl)
     ck.ob(R1, HK_Q + "::reserved-key", bool(ok), "context args enter the hash under %r iff non-empty" % RESERVED if ok else
           "context args are not added to the hash input under %r exactly when non-empty" % RESERVED, where_r)
     # every case of the hash input starts from a copy of the finished effective kwargs
